@@ -61,18 +61,22 @@ def diagnose_all(ctx, failing, pre):
     """failing: list of (key, pi, gen, ser, insts_plan).  Classify, for each failing plan, the FIRST step (or the goal
     test) on which the simulator deviates from the documented semantics, with C01's classifier (inherited findings).
     One Coq evaluation for all of them."""
-    cases, gcases, index = [], [], []
+    cases, gcases, index, tdefs = [], [], [], []
     for key, pi, gen, ser, iplan in failing:
         ex = sx.Explored(pi, gen, ser)
         recs, grec = replay_plan(pi, gen, ser, iplan)
         lo = len(cases)
-        cases += ["(P%d, %s)" % (pi, sx.ser_pair_case(ex, r)) for r in recs]
+        tdefs.append("Definition TD%d : tytab := %s." % (len(index), c01.tytab(ex)))
+        cases += ["(TD%d, P%d, %s)" % (len(index), pi, sx.ser_pair_case(ex, r)) for r in recs]
         gi = None
         if grec is not None:
             gi = len(gcases)
             gcases.append("(P%d, %s)" % (pi, sx.ser_goal_case(ex, grec)))
         index.append((key, ex, recs, lo, gi))
-    codes = ctx.coq_codes(cases, "fun pc => Corr_C01.code (fst pc) (snd pc)", imports=IMPORTS, preamble=pre, label="diag") if cases else []
+    # the grounded comparison of C01 (Corr_C01g.codeg): the Coq verdict "implementation = grounded model" classifies
+    # the inherited grounder-related findings exactly as ./check C01 does
+    codes = ctx.coq_codes(cases, "fun t => codeg (fst (fst t)) (snd (fst t)) (snd t)", imports=c01.IMPORTS_G + IMPORTS,
+                          preamble=pre + "\n".join(tdefs) + "\n", label="diag") if cases else []
     gcodes = ctx.coq_codes(gcases, "fun pc => Corr_C01.gcode (fst pc) (snd pc)", imports=IMPORTS, preamble=pre, label="diagg") if gcases else []
     out = {}
     for key, ex, recs, lo, gi in index:
@@ -80,7 +84,7 @@ def diagnose_all(ctx, failing, pre):
         for j, r in enumerate(recs):
             c = codes[lo + j]
             if c & 1:
-                tags = [t for t in c01.classify(ex, r, c) if t != "c01"] + ["step-deviation"]
+                tags = [t for t in c01.classify(ex, r, c, grounded=True) if t != "c01"] + ["step-deviation"]
                 break
         if tags is None and gi is not None and gcodes[gi] & 1:
             tags = ["goal-deviation"] + (["impl-equals-short-circuit-model"] if not gcodes[gi] & 2 else [])
